@@ -1,5 +1,6 @@
 //! unit: u06
-//! properties: C06
+//! properties: C06 C01
+//! note: also run for C01: the code it constrains lies inside mechanisms those properties name (a change made there for their sake must meet these clauses too)
 //! note: recognising which of the 2^48 commitments a confirmed transaction is: the obscured commitment number written into the sequence and locktime fields by CommitmentTransaction::build_inputs / make_transaction is read back exactly by ChannelMonitorImpl::check_spend_counterparty_transaction, for every commitment number and every obscuring factor
 //! trusted: R15 (deep slices): build_inputs (pubkeys, TxIn construction), make_transaction and check_spend_counterparty_transaction (the ~300 line claim builder) are outside the verifier; the unit extracts, on every run, the three expressions that carry the number - `obscured = factor ^ (INITIAL_COMMITMENT_NUMBER - n)` with the sequence field, the locktime field, and the decoding expression of the monitor - verbatim, as three functions; `commitment_tx.input[0].sequence.0` and `commitment_tx.lock_time.to_consensus_u32()` are read from a transaction skeleton {input: [TxIn{sequence: Sequence(u32)}], lock_time: LockTime(u32)}; everything else of the three functions is dropped and not claimed
 //! trusted: R15 (deep slice): the per-HTLC block of the revoked-commitment branch of check_spend_counterparty_transaction verbatim (consistency test, RevokedHTLCOutput::build, deadline choice, build_package, push); RevokedHTLCOutput::build and PackageTemplate::build_package are external_body constructors recording their arguments; keys, txid, amounts are opaque identities; the early `return` of the enclosing function becomes `return false`; and likewise the per-output block of the loop that finds the cheater's own (revokeable) balance output; `idx.try_into().expect(..)` is the external_body wrapper usize_to_u32 (R8); key derivation, the script construction and fail_unbroadcast_htlcs! are dropped and not claimed
